@@ -96,6 +96,14 @@ def parseArg (j : Json) : M (Arg Rat) :=
         | "complex" => .complex
         | _ => .other))
 
+/-- the constructor keywords `z=`, `z_type=` -/
+def parseZInit (j : Json) : M (Option (Rat × ZType)) :=
+  match fOpt j "z" with
+  | none => pure none
+  | some v => do
+      let z ← asRat v
+      pure (some (z, parseZType j))
+
 /-- second component: the call's numerical data was not supplied (results are then opaque) -/
 def parseCall (j : Json) : M (Call Rat × Bool) := do
   let kind ← fStr j "do"
@@ -106,12 +114,12 @@ def parseCall (j : Json) : M (Call Rat × Bool) := do
         | some v => (asNat v).map some
         | none => pure none
       pure (.newEmpirical k (← fNat j "x") (← fNat j "y") (← optRats j "xconv") (← optRats j "yconv")
-              (← fBool j "keep_neg") md (match fOpt j "fill0" with | some (.bool b) => b | _ => false), false)
+              (← fBool j "keep_neg") md (match fOpt j "fill0" with | some (.bool b) => b | _ => false) (← parseZInit j), false)
   | "new_analytic" => do
       let k ← fStr j "kind" >>= parseKind
       let (l, _) ← getField j "leaf" >>= parseLeaf
-      pure (.newAnalytic k l, false)
-  | "new_blackbody" => do pure (.newBlackBody (← fRat j "temp") (← fStr j "expr"), false)
+      pure (.newAnalytic k l (← parseZInit j), false)
+  | "new_blackbody" => do pure (.newBlackBody (← fRat j "temp") (← fStr j "expr") (← parseZInit j), false)
   | "sample" => do pure (.sample (← fNat j "o") (← fNat j "w") (← optRats j "conv"), false)
   | "arith" => do
       let op ← fStr j "op" >>= parseOp
